@@ -19,7 +19,8 @@
                scenario's observation fails, (validation:) app hashes / results / events of two
                runs or of a restarted run differ. *)
 From Coq Require Import ZArith NArith List String Bool Ascii.
-From PV Require Export Genesis.RoundTrip Genesis.QuarantineAccept Genesis.FullProduct Corr.CorrBase Corr.C18Gen.
+From PV Require Export Genesis.RoundTrip Genesis.QuarantineAccept Genesis.FullProduct Corr.CorrBase Corr.C18Gen
+                       Gen.GenStorePrefixes Genesis.StorePrefixDoc.
 Import ListNotations.
 Open Scope string_scope.
 Open Scope list_scope.
@@ -183,7 +184,15 @@ Inductive case :=
     initialised from its export, after both ran the same blocks: number of differing entries *)
 | CStore (label modname : string) (differing : N)
 (** a scripted scenario on the real application: named boolean observations that must all hold *)
-| CScenario (label : string) (observations : list (string * bool)).
+| CScenario (label : string) (observations : list (string * bool))
+(** one life-cycle marker: the record MsgAddMarker stored, then every finalize / activate / cancel /
+    delete asked of it with the caller, whether the real chain accepted it, and the marker's status
+    and manager after the block (Genesis/MarkerLifecycle.v) *)
+| CMarkerLife (label : string) (init : lmarker) (ops : list lobs)
+(** the first key bytes present in a module's store on the exporting chain: each must be a prefix
+    the module declares (Gen/GenStorePrefixes.v, regenerated from the source, reviewed in
+    Genesis/StorePrefixDoc.v) *)
+| CPrefixes (label modname : string) (first_bytes : list N).
 
 Definition model_roundtrip (t : tables) (g : app_genesis) : option app_genesis :=
   match app_import (ext_of t) g with
@@ -227,9 +236,18 @@ Definition check (c : case) : list string :=
       end
   | CStore _ m d => tag (d =? 0)%N ("prop:store_differs_after_import:" ++ m)%string
   | CScenario _ obs => flat_map (fun ob => tag (snd ob) ("prop:" ++ fst ob)%string) obs
+  | CMarkerLife _ m ops =>
+      match lm_check 0 m ops with
+      | None => []
+      | Some i => [("corr:marker_lifecycle_step:" ++ N_to_string (N.of_nat i))%string]
+      end
+  | CPrefixes _ m bs =>
+      tag (forallb (fun b => existsb (N.eqb b) (module_prefix_bytes gen_store_prefixes m)) bs)
+          ("corr:store_holds_undeclared_prefix:" ++ m)%string
   | CDigests _ kind r o =>
       tag (list_eqb String.eqb r o)
           (if String.eqb kind "restart" then "prop:restart_digests_differ"
+           else if String.eqb kind "shadow" then "prop:state_depends_on_process_history"
            else if String.eqb kind "postimport" then "prop:blocks_after_import_differ"
            else ("prop:determinism_digests_differ:" ++ kind)%string)
   end.
